@@ -410,6 +410,7 @@ func genC10(c *Ctx) {
 		nprim, nsess = 150, 120
 	}
 	c10Primitives(c, nprim)
+	c10ExtraKeyBoundaries(c)
 	for i := 0; i < nsess; i++ {
 		pol := []int{polV3, polV2, polV2 | polV3}[i%3]
 		pols := []int{pol, pol}
@@ -540,6 +541,44 @@ func genC10(c *Ctx) {
 		}
 		if i == 0 {
 			c.Sample(s.trace[:min2(10, len(s.trace))])
+		}
+	}
+}
+
+// the extra symmetric key request at the boundary of what a TLV can carry (16-bit length: 4 bytes of usage + data): either
+// the call refuses and nothing is emitted, or the peer is told the same key together with exactly the usage and data given
+func c10ExtraKeyBoundaries(c *Ctx) {
+	for _, pol := range []int{polV3, polV2} {
+		for _, l := range []int{0, 1, 65530, 65531, 65532, 65533, 65535, 65536, 70000} {
+			pols := []int{pol, pol}
+			s := newSys(pols, c.R.U64())
+			if !s.Handshake(1, 2) {
+				continue
+			}
+			data := bytes.Repeat([]byte{0x41}, l)
+			nOut := len(s.ps[1].outs)
+			nEv := len(s.ps[2].events)
+			key := s.ExtraKey(1, 0x1234, data)
+			emitted := len(s.ps[1].outs) > nOut
+			trig := fmt.Sprintf("v%d,usage-data=%d", versionOf(pol), l)
+			c.Count("extra-key-boundary")
+			if key == nil {
+				if emitted {
+					c.Violate("extra-key-deviation", trig, "UseExtraSymmetricKey failed but a message was emitted", s.trace[len(s.trace)-min2(6, len(s.trace)):])
+				}
+				continue
+			}
+			s.Pump(1, 2, 6)
+			got := false
+			for _, e := range s.ps[2].events[nEv:] {
+				if e == 300 {
+					got = true
+				}
+			}
+			if !got || s.panicked {
+				c.Violate("extra-key-deviation", trig, fmt.Sprintf("UseExtraSymmetricKey succeeded with %d bytes of usage data but the peer was not given the key (TLV type 8 with a 16-bit length of 4 + %d does not exist)", l, l), s.trace[len(s.trace)-min2(6, len(s.trace)):])
+			}
+			c.Rep.Evaluations++
 		}
 	}
 }
